@@ -212,6 +212,48 @@ theorem dto_roundtrip_needs_canonical :
     fromDto rd (toDto (.scalar .number ['0', '1'])) = some (.scalar .number ['1']) := by
   simp [toDto, fromDto, readSimple, xsdOf]
 
+/-- The three numeric types of a typed input value (`xsd:integer`, `xsd:decimal`, `xsd:double`) are read by one and
+the same reader of number texts: what is accepted, what is rejected and what value is read do not depend on the
+type written, for every text — there is no integer of 64 (or any other number of) bits on the way. -/
+theorem numeric_types_read_alike (rd : Readers) (t : List Char) (isNil : Bool) :
+    fromDto rd (.simple (some .integer) (some t) isNil) = fromDto rd (.simple (some .decimal) (some t) isNil) ∧
+    fromDto rd (.simple (some .double) (some t) isNil) = fromDto rd (.simple (some .decimal) (some t) isNil) := by
+  cases isNil <;> simp [fromDto, readSimple]
+
+/-- A number text that the reader reads as itself comes back unchanged, written as `xsd:decimal`, whichever of the
+three numeric types it was sent as — for every text, of any length. -/
+theorem typed_number_roundtrip (rd : Readers) (t : List Char) (h : rd.number t = some t) (typ : XsdType)
+    (ht : typ = .integer ∨ typ = .decimal ∨ typ = .double) :
+    (fromDto rd (.simple (some typ) (some t) false)).map toDto = some (.simple (some .decimal) (some t) false) := by
+  rcases ht with rfl | rfl | rfl <;> simp [fromDto, readSimple, h, toDto, xsdOf]
+
+/-- non-vacuity: 2^64 sent as `xsd:integer`, with a reader that accepts digits as they are -/
+example : (fromDto ⟨some, some, some, some, some, some, some⟩
+      (.simple (some .integer) (some "18446744073709551616".toList) false)).map toDto
+    = some (.simple (some .decimal) (some "18446744073709551616".toList) false) :=
+  typed_number_roundtrip _ _ rfl _ (Or.inl rfl)
+
+/-- The error cases of the conversion of a simple value, one by one: no type, no text, a type that is not one of the
+nine, a text its reader rejects — each is a rejection (an `errors` answer), and `isNil` wins over all of them. -/
+theorem simple_value_error_cases (rd : Readers) (typ : Option XsdType) (text : Option (List Char)) (t n : List Char) :
+    fromDto rd (.simple typ text true) = some .null ∧
+    fromDto rd (.simple none text false) = none ∧
+    fromDto rd (.simple typ none false) = none ∧
+    fromDto rd (.simple (some (.other n)) text false) = none ∧
+    (rd.number t = none → fromDto rd (.simple (some .integer) (some t) false) = none) ∧
+    (rd.date t = none → fromDto rd (.simple (some .date) (some t) false) = none) ∧
+    (rd.time t = none → fromDto rd (.simple (some .time) (some t) false) = none) ∧
+    (rd.dateTime t = none → fromDto rd (.simple (some .dateTime) (some t) false) = none) ∧
+    (rd.ymDuration t = none → rd.dtDuration t = none → fromDto rd (.simple (some .duration) (some t) false) = none) := by
+  refine ⟨by simp [fromDto, readSimple], by simp [fromDto, readSimple], ?_, ?_, ?_, ?_, ?_, ?_, ?_⟩
+  · cases typ <;> simp [fromDto, readSimple]
+  · cases text <;> simp [fromDto, readSimple]
+  · intro h; simp [fromDto, readSimple, h]
+  · intro h; simp [fromDto, readSimple, h]
+  · intro h; simp [fromDto, readSimple, h]
+  · intro h; simp [fromDto, readSimple, h]
+  · intro h1 h2; simp [fromDto, readSimple, h1, h2]
+
 /-- Malformed DTOs are rejected (an `errors` answer), never turned into a value: a value with
 no attribute, an unknown type, a component without a name. -/
 theorem dto_rejects (rd : Readers) (cs : DtoComps) (v : Dto) (t : List Char) (n : List Char) :
